@@ -11,11 +11,15 @@
    spec (ReduceModel) on the case, stores the results in `out`, and the invariants below
    (pass M) compare them.
 
+   Mode = "chain": the systematic (exhaustive) depth-2 family: both nestings x all operator pairs x
+   one or two evaluation-time variables x boundary constants; relation decided on real evaluations.
+
    Mode = "time": the time-arithmetic family (timestamp or now() +- duration, duration +
    timestamp, timestamp - timestamp, comparisons), expectation computed by TimeSem.      *)
 EXTENDS ReduceModel, Json, CSV, IOUtils
 
-CONSTANTS Mode,         \* "expr" | "time"
+CONSTANTS Mode,         \* "expr" | "time" | "chain"
+          ChainSize,    \* "quick" | "thorough": value sets of the systematic depth-2 family
           MaxDepth,     \* 1 | 2
           WithSem,      \* evaluate EvalSem / ReduceModel on every case and check pass M
           WithText,     \* "all": also emit the case for the text + ParseExpr route where expressible;
@@ -203,14 +207,26 @@ C4 == Civ(1969, 12, 31, 23, 59, 59, 999999999, 0)
 C5 == Civ(2000, 1, 1, 1, 0, 0, 0, 60)               \* the instant of C1, written with an offset
 C6 == Civ(2100, 6, 15, 8, 0, 0, 0, -330)
 C7 == Civ(2020, 2, 29, 12, 34, 56, 789012000, 0)
+\* instants that do not fit (or just fit) int64 nanoseconds: UnixNano() is undefined outside
+\* 1677-09-21T00:12:43.145224192Z .. 2262-04-11T23:47:16.854775807Z
+C1600 == Civ(1600, 1, 1, 0, 0, 0, 0, 0)
+C2300 == Civ(2300, 1, 1, 0, 0, 0, 0, 0)
+CMinB == Civ(1677, 9, 21, 0, 12, 43, 145224191, 0)      \* MinInt64 ns - 1
+CMin  == Civ(1677, 9, 21, 0, 12, 43, 145224192, 0)      \* MinInt64 ns
+CMinA == Civ(1677, 9, 21, 0, 12, 43, 145224193, 0)      \* MinInt64 ns + 1
+CMaxB == Civ(2262, 4, 11, 23, 47, 16, 854775806, 0)     \* MaxInt64 ns - 1
+CMax  == Civ(2262, 4, 11, 23, 47, 16, 854775807, 0)     \* MaxInt64 ns
+CMaxA == Civ(2262, 4, 11, 23, 47, 16, 854775808, 0)     \* MaxInt64 ns + 1
+FarCivils == {C1600, C2300, CMinB, CMin, CMinA, CMaxB, CMax, CMaxA}
 Spellings == {<<C1, "date", 0>>, <<C1, "dt", 0>>, <<C1, "rfc", 0>>, <<C5, "rfc", 0>>, <<C2, "dt", 1>>, <<C2, "rfc", 3>>,
               <<C3, "rfc", 9>>, <<C7, "dt", 6>>, <<C4, "rfc", 9>>, <<C6, "rfc", 0>>}
+              \cup {<<c, "rfc", IF c.f = 0 THEN 0 ELSE 9>> : c \in FarCivils}
 NowNs == ToDec(InstantNs(C3))
 \* a timestamp operand: [f |-> form, ns |-> instant, s |-> string]  forms: str svar tvar now int
 TimeOperands ==
   {[f |-> "str", ns |-> ToDec(InstantNs(x[1])), s |-> Spell(x[1], x[2], x[3])] : x \in Spellings}
   \cup {[f |-> "svar", ns |-> ToDec(InstantNs(x[1])), s |-> Spell(x[1], x[2], x[3])] : x \in {<<C1, "date", 0>>, <<C2, "dt", 1>>, <<C3, "rfc", 9>>}}
-  \cup {[f |-> "tvar", ns |-> ToDec(InstantNs(c)), s |-> ""] : c \in {C1, C4, C6}}
+  \cup {[f |-> "tvar", ns |-> ToDec(InstantNs(c)), s |-> ""] : c \in {C1, C4, C6, C2300, CMinB}}
   \cup {[f |-> "now", ns |-> NowNs, s |-> ""]}
 IntStamps == {[f |-> "int", ns |-> n, s |-> ""] : n \in {"0", "946684800000000000", "-1", "9223372036854775807", "-9223372036854775808"}}
 IntStampsCmp == {[f |-> "int", ns |-> n, s |-> ""] : n \in {"946684800000000000"}}
@@ -246,8 +262,11 @@ TimeStep ==
                                   TimeL(ToDec(Add(FromDec(t.ns), FromDec(d.d)))), TRUE, FALSE))
          [] form = "T-T" ->
               \E t \in TimeOperands : \E u \in TimeOperands :
-                EmitTime(TimeCase(form, "-", Bin("-", TNode(t, "a"), TNode(u, "b")), TBind(t, "a") \o TBind(u, "b"),
-                                  DurL(ToDec(Sub(FromDec(t.ns), FromDec(u.ns)))), TRUE, FALSE))
+                \* a difference that does not fit int64 ns is not a Duration (time.Time.Sub saturates): there is
+                \* no exact value the property could demand, such pairs are not generated
+                /\ Fits64(Sub(FromDec(t.ns), FromDec(u.ns)))
+                /\ EmitTime(TimeCase(form, "-", Bin("-", TNode(t, "a"), TNode(u, "b")), TBind(t, "a") \o TBind(u, "b"),
+                                     DurL(ToDec(Sub(FromDec(t.ns), FromDec(u.ns)))), TRUE, FALSE))
          [] form = "TcmpT" ->
               \E op \in CmpOps : \E t \in TimeOperands \cup IntStampsCmp : \E u \in TimeOperands \cup IntStampsCmp :
                 \* = and != between two strings are the first clause's business (EvalSem: string equality); two bare integers are numbers
@@ -257,9 +276,94 @@ TimeStep ==
                                      BoolL(CmpResult(op, Cmp(FromDec(t.ns), FromDec(u.ns)))),
                                      t.f # "int" /\ u.f # "int", FALSE))
 
+
+\* ------------------------------------------------------------------ the systematic depth-2 family (Mode = "chain")
+\* Every tree  (p1 inner p2) outer p3  ("left") and  p3 outer (p1 inner p2)  ("right") for every pair of
+\* arithmetic / bitwise / comparison operators that is well-typed, with one or two of the three leaves
+\* variables bound only at evaluation time (values of every numeric kind, among them the non-trivial floats
+\* 0.5 and 0.1) and the other leaves constants known at Reduce time (the first written as literal, the
+\* second as a variable bound at Reduce time) over boundary integers.  BFS: exhaustive, not sampled.
+\* The nested operand is parenthesised exactly where the parser needs parentheses (par = "natural"),
+\* in the thorough size also the other way round.  Decided on the two real evaluations only (no EvalSem).
+IV_(x) == [t |-> "int", v |-> x]
+UV_(x) == [t |-> "uns", v |-> x]
+F05 == [t |-> "float", v |-> "1", e |-> -1]
+F01 == [t |-> "float", v |-> "3602879701896397", e |-> -55]          \* the float64 nearest to 0.1
+MaxI == "9223372036854775807"
+MinI == "-9223372036854775808"
+P53 == "9007199254740993"                                             \* 2^53 + 1
+N53 == "-9007199254740992"                                            \* -2^53
+Thorough == ChainSize = "thorough"
+ChainEval == {IV_("-3"), UV_("9223372036854775809"), F01} \cup (IF Thorough THEN {F05} ELSE {})
+ChainC == IF Thorough THEN {MaxI, MinI, "1", "-1", P53, N53} ELSE {MaxI, "1", P53, N53}
+ChainPairs == {<<IV_(a), IV_(b)>> : a \in ChainC, b \in ChainC}
+              \cup {<<IV_("3"), IV_("5")>>, <<IV_("5"), IV_("3")>>, <<IV_("3"), IV_("3")>>}
+              \cup (IF Thorough THEN {<<UV_("9223372036854775808"), IV_("1")>>, <<IV_("1"), UV_("18446744073709551615")>>,
+                                      <<F05, IV_("3")>>, <<IV_(MaxI), F05>>, <<F01, F01>>} ELSE {})
+ChainSingles == {IV_(MaxI), IV_(N53)} \cup (IF Thorough THEN {IV_("3")} ELSE {})
+Bools == {BoolV(TRUE), BoolV(FALSE)}
+ChainOuter(inner) == IF inner \in CmpOps THEN EqOps ELSE ArithOps \cup BitOps \cup CmpOps
+ChainInner == ArithOps \cup BitOps \cup CmpOps
+P3Class(inner) == IF inner \in CmpOps THEN "bool" ELSE "num"
+VarSets == {{1}, {2}, {3}, {1, 2}, {1, 3}, {2, 3}}
+EvalVals(cls) == IF cls = "bool" THEN Bools ELSE ChainEval
+PosClass(gg, i) == IF i = 3 THEN P3Class(gg.inner) ELSE "num"
+\* the constants of the positions that are not evaluation-time variables: functions position -> value
+ChainConsts(gg) ==
+  LET R == {1, 2, 3} \ gg.V
+      RN == {i \in R : PosClass(gg, i) = "num"}
+      RB == R \ RN
+      nums == IF RN = {} THEN {<<>>}
+              ELSE IF \E i \in RN : \A j \in RN : j = i THEN {[i \in RN |-> c] : c \in ChainSingles}
+              ELSE LET lo == CHOOSE i \in RN : \A j \in RN : i <= j
+                       hi == CHOOSE i \in RN : \A j \in RN : j <= i
+                   IN {[i \in RN |-> IF i = lo THEN p[1] ELSE p[2]] : p \in ChainPairs}
+      bools == IF RB = {} THEN {<<>>} ELSE {[i \in RB |-> b] : b \in Bools}
+  IN {n @@ b : n \in nums, b \in bools}
+ChainParens == IF Thorough THEN {"natural", "other"} ELSE {"natural"}
+ChainTree(gg, ev, cs, par) ==
+  LET R == {1, 2, 3} \ gg.V
+      first == CHOOSE i \in R : \A j \in R : i <= j
+      Leaf(i) == IF i \in gg.V \/ i # first THEN Ref(VarNames[i]) ELSE LitNode(cs[i])
+      inner == Bin(gg.inner, Leaf(1), Leaf(2))
+      need == IF gg.shape = "left" THEN Prec(gg.inner) < Prec(gg.outer) ELSE Prec(gg.inner) <= Prec(gg.outer)
+      wrap == IF par = "natural" THEN need ELSE ~need
+      sub == IF wrap THEN Paren(inner) ELSE inner
+  IN IF gg.shape = "left" THEN Bin(gg.outer, sub, Leaf(3)) ELSE Bin(gg.outer, Leaf(3), sub)
+ChainBinds(gg, ev, cs) ==
+  LET R == {1, 2, 3} \ gg.V
+      first == CHOOSE i \in R : \A j \in R : i <= j
+      idx == SelectSeq(<<1, 2, 3>>, LAMBDA i : i \in gg.V \/ i # first)
+  IN [j \in 1..Len(idx) |-> IF idx[j] \in gg.V THEN [n |-> VarNames[idx[j]], val |-> ev[idx[j]], at |-> 2]
+                                               ELSE [n |-> VarNames[idx[j]], val |-> cs[idx[j]], at |-> 1]]
+ChainOps == /\ pc = "chain"
+            /\ \E shape \in {"left", "right"} : \E inner \in ChainInner : \E outer \in ChainOuter(inner) \cap RootOps :
+                 g' = [shape |-> shape, inner |-> inner, outer |-> outer, V |-> {}, ev |-> <<>>]
+            /\ pc' = "chainvars" /\ UNCHANGED out
+ChainVars == /\ pc = "chainvars"
+             /\ \E V \in VarSets : g' = [g EXCEPT !.V = V]
+             /\ pc' = "chaineval" /\ UNCHANGED out
+ChainEvalStep == /\ pc = "chaineval"
+                 /\ \E ev \in [g.V -> ChainEval \cup Bools] :
+                      /\ \A i \in g.V : ev[i] \in EvalVals(PosClass(g, i))
+                      /\ g' = [g EXCEPT !.ev = ev]
+                 /\ pc' = "chainfin" /\ UNCHANGED out
+ChainFin == /\ pc = "chainfin"
+            /\ \E cs \in ChainConsts(g) : \E par \in ChainParens :
+                 LET tree == ChainTree(g, g.ev, cs, par)
+                     binds == ChainBinds(g, g.ev, cs)
+                     c == [fam |-> "expr", sub |-> "chain", via |-> "ast", tree |-> tree, binds |-> binds, depth |-> 2,
+                           alts |-> Alts(tree, binds)]
+                 IN /\ CSVWrite("%1$s", <<ToJson(c)>>, CaseFile)
+                    /\ out' = [tree |-> tree, binds |-> binds]
+            /\ pc' = "done" /\ UNCHANGED g
+\* the chain generator only builds what Typing calls well-typed
+ChainWellTyped == (pc = "done" /\ Mode = "chain") => WellTyped(out.tree, out.binds)
+
 Init == /\ g = G0 /\ out = NoOut
-        /\ pc = IF Mode = "time" THEN "time" ELSE "op"
-Next == ChooseOp \/ ChooseCls \/ ChooseSide \/ ChooseTop \/ ChooseVal \/ ChooseForm \/ Fin \/ TimeStep \/ Done
+        /\ pc = CASE Mode = "time" -> "time" [] Mode = "chain" -> "chain" [] OTHER -> "op"
+Next == ChooseOp \/ ChooseCls \/ ChooseSide \/ ChooseTop \/ ChooseVal \/ ChooseForm \/ Fin \/ TimeStep
+        \/ ChainOps \/ ChainVars \/ ChainEvalStep \/ ChainFin \/ Done
 Spec == Init /\ [][Next]_vars
 
 \* ------------------------------------------------------------------ pass M invariants
